@@ -1,7 +1,7 @@
 (* C11Hold.v -- C11 case record and verified-oracle judgement. *)
 From LV Require Import Base FS FSFacts LayerShared.
 
-Inductive c11_op := OpDeleteLayer | OpRdr.
+Inductive c11_op := OpDeleteLayer | OpRdr | OpRecreate.   (* OpRecreate: BuildContext::uncached_layer on the layer *)
 Inductive c11_res := ROk | RErrno (e : errno) | ROther.
 
 Record case := mkCase {
@@ -16,7 +16,7 @@ Record case := mkCase {
 (* what the call may touch *)
 Definition owned_of (c : case) : path -> bool :=
   match c_op c with
-  | OpDeleteLayer => owned spec_sbom_suffixes (c_layers c) (c_name c)
+  | OpDeleteLayer | OpRecreate => owned spec_sbom_suffixes (c_layers c) (c_name c)
   | OpRdr => is_prefix (c_layers c ++ [c_name c])
   end.
 
@@ -25,7 +25,7 @@ Definition owned_of (c : case) : path -> bool :=
 (* the specified operation (repair flags on, the CNB SBOM suffixes) on the observed pre-state *)
 Definition spec_run (c : case) : fs * result errno unit :=
   match c_op c with
-  | OpDeleteLayer => delete_layer true true spec_sbom_suffixes (c_layers c) (c_name c) (c_pre c)
+  | OpDeleteLayer | OpRecreate => delete_layer true true spec_sbom_suffixes (c_layers c) (c_name c) (c_pre c)
   | OpRdr => remove_dir_recursively true (rdr_fuel (c_pre c)) (c_layers c ++ [c_name c]) (c_pre c)
   end.
 
@@ -35,9 +35,17 @@ Definition spec_run (c : case) : fs * result errno unit :=
    not fail where the specification succeeds *)
 Definition holds (c : case) : bool :=
   frame_chk (owned_of c) (c_pre c) (c_post c) &&
-  match c_res c with
-  | ROk => forallb (fun kv => negb (owned_of c (fst kv))) (c_post c)
-  | _ => match snd (spec_run c) with Ok _ => false | Err _ => true end
+  match c_res c, c_op c with
+  | ROk, OpRecreate =>
+      (* the old entries are gone: what the layer owns afterwards is a fresh empty directory and a fresh
+         REGULAR content-metadata file (not the link or file that was there before) *)
+      forallb (fun kv => negb (owned_of c (fst kv)) ||
+                         (path_eqb (fst kv) (c_layers c ++ [c_name c]) && match snd kv with Dir _ => true | _ => false end) ||
+                         (path_eqb (fst kv) (c_layers c ++ [toml_name (c_name c)]) && match snd kv with File _ _ => true | _ => false end))
+              (c_post c)
+  | ROk, _ => forallb (fun kv => negb (owned_of c (fst kv))) (c_post c)
+  | _, OpRecreate => true      (* a request may fail (unreadable or unparsable metadata ...): then only the frame is judged *)
+  | _, _ => match snd (spec_run c) with Ok _ => false | Err _ => true end
   end.
 
 Definition branch_of (c : case) : N :=
